@@ -49,3 +49,16 @@ package loader
 //@   loop 3   invariant [action] success ==> key.input[3] == frec("files %s\n", args(buildID(pkg.ExportFile)[0:strings.IndexRune(buildID(pkg.ExportFile), '/')])) && base == 4
 //@   loop 3   invariant [imports] forall j int :: {imps[j]} 0 <= j && j < q ==> key.input[base + j] == (imps[j].ExportFile == "" ? frec("import %s \n", args(imps[j].PkgPath)) : key.input[base + j]) && (imps[j].ExportFile != "" ==> (key.input[base + j] == frec("import %s %s\n", args(imps[j].PkgPath, buildID(imps[j].ExportFile))) || key.input[base + j] == frec("import %s %x\n", args(imps[j].PkgPath, cache.contentHash(imps[j].ExportFile)))))
 //@   at call cache.(*Hash).Sum#1 assert [key] key.input[0] == cache.saltRec() && key.input[2] == frec("import %q\n", args(pkg.PkgPath)) && (success ==> key.input[3] == frec("files %s\n", args(buildID(pkg.ExportFile)[0:strings.IndexRune(buildID(pkg.ExportFile), '/')])))
+
+//@ prop C20
+
+// The Go version handed to the type checker (which decides the language version of every file
+// without a //go:build go1.N line): with -go module it is the module's go directive, or the
+// newest release the toolchain knows when there is no module information; otherwise it is the
+// value of the -go flag.
+//@ func (*program).loadFromSource
+//@   modifies heap
+//@   may_panic
+//@   nosafe   all
+//@   requires prog != nil && spec != nil
+//@   at call types.NewChecker#1 assert [version] tc.GoVersion == (prog.options.GoVersion == "module" ? ((spec.Module != nil && spec.Module.GoVersion != "") ? "go" + spec.Module.GoVersion : build.Default.ReleaseTags[len(build.Default.ReleaseTags)-1]) : prog.options.GoVersion)
